@@ -24,11 +24,16 @@ Ev == Traces[tid].ev[l]
 Common(e) == /\ obs'.call = e.call /\ obs'.obj = e.obj
 Seen(e)   == /\ obs'.ns = e.ns /\ obs'.t = e.t
 
+(* the recorder replaces the kind by a description of what is wrong when the set-up itself is inconsistent (the doubles  *)
+(* handed to the engine differ from the script's, the caller's script was modified, the default t_max is not the last     *)
+(* requested time, ...): such a set-up is not a behaviour of Engine                                                        *)
+KnownKind(c) == c.kind \in {"fixed", "gill"}
+
 RunCands(e) ==      \* run(ms): the number of iterations is bounded by the step the engine reports
   LET dn == (e.t - alg[Own(e.obj)].t) \div 2 IN {IF dn < 1 THEN 1 ELSE dn, dn + 1}
 
 TraceStep(e) ==
-  \/ /\ e.call = "setup"       /\ Setup(e.obj, e.cfg) /\ Common(e) /\ Seen(e)
+  \/ /\ e.call = "setup"       /\ KnownKind(e.cfg) /\ Setup(e.obj, e.cfg) /\ Common(e) /\ Seen(e)
   \/ /\ e.call = "iterate"     /\ Iterate(e.obj) /\ Common(e) /\ Seen(e) /\ obs'.ret = e.ret
   \/ /\ e.call = "iterate_n"   /\ IterateN(e.obj, e.k) /\ Common(e) /\ Seen(e) /\ obs'.ret = e.ret
   \/ /\ e.call = "run"         /\ Run(e.obj, RunCands(e)) /\ Common(e) /\ Seen(e) /\ obs'.ret = e.ret
